@@ -505,10 +505,9 @@ func (d *Driver) complete(e *mc.Env, s *mc.State, f *feedM, t time.Time, how str
 			valid = append(valid, wire(l))
 		}
 	}
-	lo, hi := b.ThrStart, f.Thr
-	if lo > hi {
-		lo, hi = hi, lo
-	}
+	// "its response threshold" is the threshold the batch was started with (the service module records it per
+	// batch); an edit of the feed while the batch is open applies from the next batch on
+	lo, hi := b.ThrStart, b.ThrStart
 	got := d.stored(e, s, f.Name)
 	defer func() { f.Vals = got }() // resynchronise: the search continues from what is stored
 	desc := fmt.Sprintf("feed %s (%s, latest_history %d) batch %d completed %s at %s with valid responses %v (threshold %d)",
